@@ -285,6 +285,8 @@ def it_next(I, itp):
     it = I.deref(itp)
     t = it.ty
     if t == "SliceIter": return slice_iter_next(I, itp)
+    if t == "Box":            # Box<dyn Iterator>
+        return it_next(I, unwrap_ptr(it))
     if t == "ListIter":
         v, k = it.f
         if k >= len(v.f): return none()
@@ -1125,7 +1127,7 @@ for _p in ("alloc::slice::<impl []>::", "slice::<impl []>::", "std::slice::<impl
     S[_p + "len"] = S["core::slice::<impl []>::len"]
     S[_p + "iter"] = S["core::slice::<impl []>::iter"]
     S[_p + "contains"] = S["core::slice::<impl []>::contains"]
-    S[_p + "join"] = lambda I, s, sep: (_ for _ in ()).throw(Unsupported("slice::join"))
+    S[_p + "join"] = lambda I, s, sep: _join(I, s, sep)
 
 
 @summary("Vec::append")
@@ -1133,3 +1135,12 @@ def _(I, p, other):
     o = vec_of(I, other)
     vec_of(I, p).f.extend(o.f); o.f = []
     return UNIT
+
+
+def _join(I, s, sep):
+    from .summaries_str import as_str
+    out = []; sp = list(as_str(I, sep).items())
+    for i, x in enumerate(s.items()):
+        if i: out += sp
+        out += list(as_str(I, x).items())
+    return VecObj(out, "String")
